@@ -1,4 +1,5 @@
 import Agd.Gen.TrC13
+import Agd.Model.Refresh
 /-!
 # C13: the download-and-replace path of a refreshable list, as translated from the source
 
@@ -159,6 +160,56 @@ theorem cache_error_stops_refresh (f : S_refreshable_Refreshable) (stale : Bool)
     out.1 = "" ∧ out.2.1 ≠ none ∧ "refreshFromURL" ∉ names out.2.2 := by
   simp [useCachedOrRefreshFromURL, names]
 
+/-! ## Round 6: the hand model's `fromFile` (Model/Refresh.lean) equals the translated `refreshFromFile` -/
+
+/-- What the file system hands to `refreshFromFile` for a cache file whose complete content is `disk`
+(`none` = no file) when no file-system call fails. -/
+def diskText (txt : Nat → String) : Option Nat → String
+  | some c => txt c
+  | none => ""
+
+/-- **The hand model's `fromFile` is the translated `refreshFromFile`** on a healthy file system, for every
+content, every rendering of contents as text that maps exactly the empty documents to `""`, and every
+staleness setting: same text (or none), and no error. -/
+theorem fromFile_tr (E : Agd.Refresh.Env) (txt : Nat → String) (htxt : ∀ c, txt c = "" ↔ E.len c = 0)
+    (f : S_refreshable_Refreshable) (stale fresh : Bool) (p : String) (op st : AbsPtr) (u : Unit) (n : Int)
+    (disk : Option Nat) :
+    let out := refreshFromFile f stale p (op, none) disk.isNone (st, none) none u fresh (n, none) (diskText txt disk)
+    out.2.1 = none ∧ out.1 = diskText txt (Agd.Refresh.fromFile E stale fresh disk) := by
+  cases disk with
+  | none => simp [refreshFromFile, Agd.Refresh.fromFile, diskText]
+  | some c =>
+    have h := htxt c
+    cases stale <;> cases fresh <;> by_cases hl : E.len c = 0 <;>
+      simp [refreshFromFile, Agd.Refresh.fromFile, diskText, hl, h.mpr] <;> simp_all
+
+/-- … and the URL is contacted exactly when the model's `fromFile` has nothing to offer (the first
+`match` of the model's `refresh`). -/
+theorem url_consulted_iff_model_cache_miss (E : Agd.Refresh.Env) (txt : Nat → String)
+    (htxt : ∀ c, txt c = "" ↔ E.len c = 0)
+    (f : S_refreshable_Refreshable) (stale fresh : Bool) (p : String) (op st : AbsPtr) (u : Unit) (n : Int)
+    (disk : Option Nat) (ru : AbsPtr) (url : String × Option String) :
+    let rf := refreshFromFile f stale p (op, none) disk.isNone (st, none) none u fresh (n, none) (diskText txt disk)
+    ("refreshFromURL" ∈ names (useCachedOrRefreshFromURL f stale u (rf.1, rf.2.1) ru url).2.2 ↔
+      Agd.Refresh.fromFile E stale fresh disk = none) := by
+  have h := fromFile_tr E txt htxt f stale fresh p op st u n disk
+  simp only at h
+  intro rf
+  have h1 : rf.2.1 = none := h.1
+  have h2 : rf.1 = diskText txt (Agd.Refresh.fromFile E stale fresh disk) := h.2
+  rw [h1, h2]
+  cases hm : Agd.Refresh.fromFile E stale fresh disk with
+  | none => cases hu : url.2 <;> simp [useCachedOrRefreshFromURL, names, diskText, hu]
+  | some c =>
+    have hc : txt c ≠ "" := by
+      cases disk with
+      | none => simp [Agd.Refresh.fromFile] at hm
+      | some d =>
+        simp [Agd.Refresh.fromFile] at hm
+        obtain ⟨⟨_, hd⟩, rfl⟩ := hm
+        exact fun e => hd ((htxt _).mp e)
+    simp [useCachedOrRefreshFromURL, names, diskText, hc]
+
 end Agd.Tie.TrC13
 
 #print axioms Agd.Tie.TrC13.translation_complete
@@ -176,3 +227,5 @@ end Agd.Tie.TrC13
 #print axioms Agd.Tie.TrC13.stale_cache_goes_to_url
 #print axioms Agd.Tie.TrC13.fresh_cache_never_downloads
 #print axioms Agd.Tie.TrC13.cache_error_stops_refresh
+#print axioms Agd.Tie.TrC13.fromFile_tr
+#print axioms Agd.Tie.TrC13.url_consulted_iff_model_cache_miss
